@@ -5,7 +5,10 @@ RING_BUFFER(s16_ring, int16_t)
 RING_BUFFER_ITER(s16_ring, int16_t)
 RING_BUFFER(f64_ring, double)
 RING_BUFFER_ITER(f64_ring, double)
+RING_BUFFER(ptr_ring, uint8_t *)
+RING_BUFFER_ITER(ptr_ring, uint8_t *)
 void vp_octet_ring_ovr(octet_ring *r, int v) { octet_ring_override_if_full(r, v); }
 void vp_u32_ring_ovr(u32_ring *r, int v) { u32_ring_override_if_full(r, v); }
 void vp_s16_ring_ovr(s16_ring *r, int v) { s16_ring_override_if_full(r, v); }
 void vp_f64_ring_ovr(f64_ring *r, int v) { f64_ring_override_if_full(r, v); }
+void vp_ptr_ring_ovr(ptr_ring *r, int v) { ptr_ring_override_if_full(r, v); }
